@@ -3,7 +3,7 @@
 (git -C /repo apply), the unedited suite and the demonstration are run, the check(s) run against /repo, and the patch
 is undone straight afterwards (git -C /repo checkout -- .).  Nothing else may use /repo while this runs.
 
-    harness/final_pass.py [seeded/C07/m1 ...]      (default: every seeded/C*/[mnpr]* and seeded/harmless/h*)
+    harness/final_pass.py [seeded/C07/m1 ...]      (default: every seeded/C*/[mnpqr]* and seeded/harmless/h*)
 
 Writes the verdict into meta.json under "final" and a summary to .work/final_pass.log.
 """
@@ -44,7 +44,7 @@ def run_check(pid):
 
 
 def main():
-    dirs = sys.argv[1:] or sorted(glob.glob(os.path.join(VERIF, "seeded/C*/[mnpr][0-9]")) + glob.glob(os.path.join(VERIF, "seeded/harmless/h*")))
+    dirs = sys.argv[1:] or sorted(glob.glob(os.path.join(VERIF, "seeded/C*/[mnpqr][0-9]")) + glob.glob(os.path.join(VERIF, "seeded/harmless/h*")))
     rc, out = sh("git -C /repo status --porcelain --untracked-files=no")
     assert out.strip() == "", "/repo has local changes: " + out
     log = open(os.path.join(VERIF, ".work", "final_pass.log"), "a")
